@@ -83,10 +83,15 @@ fn opt_bytes(s: &str) -> Option<Option<Vec<u8>>> {
     if s == "none" { Some(None) } else { unhex(s).map(Some) }
 }
 
+/// the tape argument: hex = scripted RNG bytes, `real` = the real thread_rng (the tap only logs)
+fn tape_arg(s: &str) -> Option<Option<Vec<u8>>> {
+    if s == "real" { Some(None) } else { unhex(s).map(Some) }
+}
+
 /// run `f` with the RNG script `tape` installed on this thread (empty tape = no bytes available)
-fn with_tape<T>(tape: &[u8], f: impl FnOnce() -> T) -> T {
-    verif_hooks::set_script(Some(tape.to_vec()));
-    let _ = verif_hooks::take_log();
+fn with_tape<T>(tape: &Option<Vec<u8>>, f: impl FnOnce() -> T) -> T {
+    verif_hooks::set_script(tape.clone());
+    if tape.is_some() { let _ = verif_hooks::take_log(); }
     let r = std::panic::catch_unwind(std::panic::AssertUnwindSafe(f));
     verif_hooks::set_script(None);
     match r { Ok(v) => v, Err(e) => std::panic::resume_unwind(e) }
@@ -99,13 +104,13 @@ macro_rules! sign_set {
             use crystals_dilithium::params::$set as pp;
             match (f, a.len()) {
                 ("keypair", 2) => {
-                    let seed = opt_bytes(a[0])?; let tape = unhex(a[1])?;
+                    let seed = opt_bytes(a[0])?; let tape = tape_arg(a[1])?;
                     let mut pk = vec![0u8; pp::PUBLICKEYBYTES]; let mut sk = vec![0u8; pp::SECRETKEYBYTES];
                     with_tape(&tape, || sg::keypair(&mut pk, &mut sk, seed.as_deref()));
                     ok(format!("{} {}", hex(&pk), hex(&sk)))
                 }
                 ("signature", 4) => {
-                    let msg = unhex(a[0])?; let sk = unhex(a[1])?; let rnd = a[2] == "1"; let tape = unhex(a[3])?;
+                    let msg = unhex(a[0])?; let sk = unhex(a[1])?; let rnd = a[2] == "1"; let tape = tape_arg(a[3])?;
                     let mut sig = vec![0u8; pp::SIGNBYTES];
                     with_tape(&tape, || sg::signature(&mut sig, &msg, &sk, rnd));
                     ok(hex(&sig))
@@ -144,7 +149,7 @@ macro_rules! api_common {
             use crystals_dilithium::$api as api;
             Some(match (f, a.len()) {
                 ("Keypair::generate", 2) => {
-                    let seed = opt_bytes(a[0])?; let tape = unhex(a[1])?;
+                    let seed = opt_bytes(a[0])?; let tape = tape_arg(a[1])?;
                     let kp = with_tape(&tape, || api::Keypair::generate(seed.as_deref()));
                     ok(format!("{} {}", hex(&kp.secret.to_bytes()), hex(&kp.public.to_bytes())))
                 }
@@ -193,14 +198,14 @@ macro_rules! api_mldsa {
             match (f, a.len()) {
                 // SecretKey::sign sk msg ctx hedged tape
                 ("SecretKey::sign", 5) => {
-                    let sk = unhex(a[0])?; let msg = unhex(a[1])?; let ctx = opt_bytes(a[2])?; let hedged = a[3] == "1"; let tape = unhex(a[4])?;
+                    let sk = unhex(a[0])?; let msg = unhex(a[1])?; let ctx = opt_bytes(a[2])?; let hedged = a[3] == "1"; let tape = tape_arg(a[4])?;
                     let k = api::SecretKey::from_bytes(&sk);
                     let s = with_tape(&tape, || k.sign(&msg, ctx.as_deref(), hedged));
                     ok(fmt_sig(s.as_ref().map(|x| &x[..])))
                 }
                 // SecretKey::prehash_sign sk MSG ctx hedged ph tape   (the harness passes the message; the model gets the digest)
                 ("SecretKey::prehash_sign", 7) => {
-                    let sk = unhex(a[0])?; let msg = unhex(a[1])?; let ctx = opt_bytes(a[2])?; let hedged = a[3] == "1"; let p = ph(a[4])?; let tape = unhex(a[5])?;
+                    let sk = unhex(a[0])?; let msg = unhex(a[1])?; let ctx = opt_bytes(a[2])?; let hedged = a[3] == "1"; let p = ph(a[4])?; let tape = tape_arg(a[5])?;
                     let k = api::SecretKey::from_bytes(&sk);
                     let s = with_tape(&tape, || k.prehash_sign(&msg, ctx.as_deref(), hedged, p));
                     ok(fmt_sig(s.as_ref().map(|x| &x[..])))
